@@ -178,8 +178,17 @@ def run(ctx, pid, args):
     extra = []
     t2 = time.time()
     if hasattr(P, 'extra_checks'):      # list of dicts {ok, name, kind?, case, detail}
-        with contextlib.redirect_stdout(io.StringIO()), contextlib.redirect_stderr(io.StringIO()):
-            extra = P.extra_checks(ctx)
+        try:
+            with contextlib.redirect_stdout(io.StringIO()), contextlib.redirect_stderr(io.StringIO()):
+                extra = P.extra_checks(ctx)
+        except Exception as e:
+            # some extra checks run GENERATED functions through the model driver; when a changed source makes the regenerated
+            # model fail to build there is no such driver: that is a broken obligation (decided below by the search), not a
+            # failure of the machinery.  With an intact driver an exception here is a harness bug and stays one (exit 2).
+            if ok_drv and ok_props:
+                raise
+            extra = [{'name': f'extra checks not run: the model driver or the theorems do not build ({type(e).__name__}: {str(e)[:200]})',
+                      'ok': True, 'case': None, 'detail': 'decided by the failing-input search'}]
     phases['extra checks'] = round(time.time() - t2, 1)
     extra_vio = [e for e in extra if not e['ok']]
 
